@@ -376,6 +376,33 @@ class Interp:
                     "array-roundtrip:all-fields",
                     f"{np.asarray(full).tolist()} expected {want.tolist()}",
                     self.case)
+            # a subset of the fields in an order of its own: column j must
+            # hold the values of the j-th requested name
+            sub = step.get("sub")
+            if sub and arr is not None:
+                fields = list(arr.dtype.names)
+                pick = []
+                for i in sub:
+                    nm_ = fields[i % len(fields)]
+                    if nm_ not in pick:
+                        pick.append(nm_)
+                in_order = pick == [f for f in fields if f in pick]
+                cl.append("array:subset-in-field-order" if in_order
+                          else "array:subset-reordered")
+                want = np.array(
+                    [[float(arr[nm_][k]) for nm_ in pick] for k in range(n)],
+                    dtype=float).reshape(n, len(pick))
+                for cp in (False, True):
+                    got = self._call(
+                        lambda: lp.live_points_to_array(arr, pick, copy=cp),
+                        "live_points_to_array")
+                    if np.asarray(got).shape != want.shape or not _eq(
+                            got, want):
+                        raise Violation(
+                            "array-subset:column-order",
+                            f"live_points_to_array(names={pick}, copy={cp}) "
+                            f"gives {np.asarray(got).tolist()} expected "
+                            f"{want.tolist()} (fields {fields})", self.case)
         elif via == "dict":
             cl.append(f"dict:{form}")
             if form in ("scalar", "npscalar"):
@@ -712,6 +739,8 @@ class LivePointMachine(RuleBasedStateMachine):
             step["copy"] = data.draw(st.booleans())
             step["names_tuple"] = data.draw(
                 st.sampled_from([False, False, False, True]))
+            step["sub"] = data.draw(st.lists(st.integers(0, 11),
+                                             min_size=0, max_size=4))
         elif via == "dict":
             form = data.draw(st.sampled_from(
                 ["scalar", "npscalar", "list", "tuple", "array"]))
